@@ -150,9 +150,18 @@ func (sv *c19Server) serveTransport(t lime.Transport) {
 			s.mu.Unlock()
 			return
 		}
-		if m, ok := e.(*lime.Message); ok {
+		var eid string
+		switch m := e.(type) {
+		case *lime.Message:
+			eid = m.ID
+		case *lime.Notification:
+			eid = m.ID
+		case *lime.RequestCommand:
+			eid = m.ID
+		}
+		if eid != "" {
 			s.mu.Lock()
-			s.got[m.ID] = true
+			s.got[eid] = true
 			s.mu.Unlock()
 		}
 	}
@@ -380,9 +389,20 @@ func c19Run(scn *c19Scn) c19Obs {
 			msgN++
 			id := fmt.Sprintf("m%d", msgN)
 			ctx, cancel := context.WithTimeout(context.Background(), 500*time.Millisecond*slack)
-			m := &lime.Message{Envelope: lime.Envelope{ID: id}}
-			m.SetContent(lime.TextDocument("x"))
-			err := client.SendMessage(ctx, m)
+			// every sending operation of the Client goes through the same channel look-up
+			var err error
+			switch msgN % 3 {
+			case 1:
+				m := &lime.Message{Envelope: lime.Envelope{ID: id}}
+				m.SetContent(lime.TextDocument("x"))
+				err = client.SendMessage(ctx, m)
+			case 2:
+				err = client.SendNotification(ctx, &lime.Notification{Envelope: lime.Envelope{ID: id}, Event: lime.NotificationEventReceived})
+			default:
+				rc := &lime.RequestCommand{Command: lime.Command{Envelope: lime.Envelope{ID: id}, Method: lime.CommandMethodGet}}
+				rc.SetURIString("/presence")
+				err = client.SendRequestCommand(ctx, rc)
+			}
 			cancel()
 			ob.Tag = "send"
 			ob.A = err == nil
